@@ -21,7 +21,7 @@ Qed.
 
 (* ---- resources: success is per resource, and each resolved resource is a function of its own definition ---- *)
 Definition resource_ok (e : env) (resolved : list (str * bool)) (r : value) : Prop :=
-  exists keep, gate resolved r = Ok keep /\ (keep = true -> exists r', resolve e r = Ok r').
+  exists keep, gate resolved r = Ok keep /\ (keep = true -> exists r', resolve_resource e r = Ok r').
 
 Lemma resolve_resources_ok_iff e resolved rs :
   (exists rs', resolve_resources e resolved rs = Ok rs') <-> Forall (fun kv => resource_ok e resolved (snd kv)) rs.
@@ -31,7 +31,7 @@ Proof.
   - split.
     + intros [rs' H]. destruct (gate resolved r) as [keep|] eqn:Eg; simpl in H; [|discriminate].
       destruct keep.
-      * destruct (resolve e r) as [r1|] eqn:Er; simpl in H; [|discriminate].
+      * destruct (resolve_resource e r) as [r1|] eqn:Er; simpl in H; [|discriminate].
         destruct (resolve_resources e resolved rest) as [rest1|] eqn:Err; simpl in H; [|discriminate].
         constructor; [exists true; split; [exact Eg | intros _; exists r1; exact Er] | apply IH; exists rest1; reflexivity].
       * constructor; [exists false; split; [exact Eg | discriminate] | apply IH; exists rs'; exact H].
@@ -76,7 +76,7 @@ Lemma resolve_resources_env_eq e e' resolved rs : env_eq e e' ->
   resolve_resources e resolved rs = resolve_resources e' resolved rs.
 Proof.
   intros He. induction rs as [|[id r] rest IH]; [reflexivity|]. simpl.
-  rewrite (resolve_env_eq e e' r He), IH. reflexivity.
+  unfold resolve_resource. rewrite (resolve_env_eq e e' r He), IH. reflexivity.
 Qed.
 
 (* reordering the Parameters section gives a parameter map with the same lookups *)
